@@ -150,6 +150,15 @@ class C11(Prop):
                         if prev["H"][c]["st"] == "R" and H[c]["st"] != "I":
                             out.append(viol("removed-running-not-interrupted", "`%s`: RUNNING %d is %s afterwards"
                                             % (o["op"], c, H[c]["st"])))
+                if t[0] in ("remove", "removeid"):
+                    # only a child of *this* composite can be removed from it; anything else (a grandchild, a member of
+                    # another composite, a stranger) is rejected
+                    member = int(t[2]) in prev["H"][int(t[1])]["c"]
+                    if not member and o["R"] == "ok":
+                        out.append(viol("invalid-call-accepted", "`%s` was accepted although %s is not a child of %s"
+                                        % (o["op"], t[2], t[1]), op=t[0]))
+                    if member and o["R"] != "ok":
+                        out.append(viol("valid-call-rejected", "`%s` raised %s" % (o["op"], o["R"]), op=t[0]))
                 # a call that must be rejected
                 if t[0] in ("add", "prepend", "insert", "decorate", "replace", "addmany"):
                     args = t[2].split(",") if t[0] == "addmany" else [t[3] if t[0] == "replace" else
